@@ -235,6 +235,10 @@ class CMapDB:
         name = name.replace("\0", "")
         filename = "%s.pickle.gz" % name
         log.debug("loading: %r", name)
+        # CMap names come from the document: only a plain file name inside the
+        # resource directories may be looked up (no separators, no absolute paths)
+        if os.path.basename(filename) != filename:
+            raise CMapDB.CMapNotFound(name)
         cmap_paths = (
             os.environ.get("CMAP_PATH", "/usr/share/pdfminer/"),
             os.path.join(os.path.dirname(__file__), "cmap"),
